@@ -13,10 +13,10 @@ import (
 
 // slot kinds of an element of the slice passed to the routine.
 const (
-	slotPoison   uint8 = iota // never accessed: NaN, must be bitwise unchanged
-	slotValue                 // stored operand element
-	slotImagDC                // stored element whose imaginary part is ignored (Hermitian diagonal): imag is NaN
-	slotWriteOnly             // result element that must not be read (beta == 0): NaN on entry
+	slotPoison    uint8 = iota // never accessed: NaN, must be bitwise unchanged
+	slotValue                  // stored operand element
+	slotImagDC                 // stored element whose imaginary part is ignored (Hermitian diagonal): imag is NaN
+	slotWriteOnly              // result element that must not be read (beta == 0): NaN on entry
 )
 
 // garbageImag is the imaginary part given to Hermitian diagonal elements
